@@ -24,8 +24,8 @@ func r01g(c *core.Ctx) {
 		ok, why := receivedBytes(c, fn, arg, s.Call, 0)
 		c.Check(ok, key, s.Call.Pos(), fn, "the decoder is given exactly the received bytes (not the rest of a recycled buffer)", why)
 	}
-	if n < 8 {
-		c.Unknown("unpack-sites", 0, nil, "at least 8 UnpackMsg call sites", fmt.Sprint(n))
+	if n < 6 {
+		c.Unknown("unpack-sites", 0, nil, "at least 6 UnpackMsg call sites (8 with the linux-only gnet listener)", fmt.Sprint(n))
 	}
 }
 
